@@ -1172,3 +1172,119 @@ twin('C02', 'poll-rename-ltid', MVCCPY, 'MVCCAdapterInstance.poll_invalidations'
 twin('C02', 'load-explicit-handle-keyword', FSPY, 'FileStorage.load',
      'h = self._read_data_header(pos, oid, _file)',
      'h = self._read_data_header(pos, oid, _file=_file)')
+
+# ---------------------------------------------------------------- C10
+CRPY = 'ZODB/ConflictResolution.py'
+breaker('C10', 'resolver-old-committed-swapped', 'C10.R1', CRPY,
+        'tryToResolveConflict',
+        'resolved = resolve(old, committed, newstate)',
+        'resolved = resolve(committed, old, newstate)')
+breaker('C10', 'resolver-old-from-committed-serial', 'C10.R1', CRPY,
+        'tryToResolveConflict',
+        'oldData = self.loadSerial(oid, oldSerial)',
+        'oldData = self.loadSerial(oid, committedSerial)')
+breaker('C10', 'fs-store-serials-swapped', 'C10.R1', FSPY, 'FileStorage.store',
+        '''data = self.tryToResolveConflict(oid, committed_tid,
+                                                     oldserial, data)''',
+        '''data = self.tryToResolveConflict(oid, oldserial,
+                                                     committed_tid, data)''')
+breaker('C10', 'undo-resolve-wrong-base', 'C10.R1', FSPY,
+        'FileStorage._transactionalUndoRecord',
+        '''            data = self.tryToResolveConflict(
+                oid, ctid, tid, pre_data, current_data)''',
+        '''            data = self.tryToResolveConflict(
+                oid, ctid, tid, current_data, pre_data)''')
+breaker('C10', 'resolver-returns-new-pickle', 'C10.R2', CRPY,
+        'tryToResolveConflict',
+        'return self._crs_transform_record_data(file.getvalue())',
+        'return self._crs_transform_record_data(newpickle)')
+breaker('C10', 'resolver-swallows-failure', 'C10.R2', CRPY,
+        'tryToResolveConflict',
+        '''    raise ConflictError(oid=oid, serials=(committedSerial, oldSerial),
+                        data=newpickle)''', '''    return newpickle''')
+breaker('C10', 'resolver-pickles-newstate', 'C10.R2', CRPY,
+        'tryToResolveConflict',
+        'pickler.dump(resolved)', 'pickler.dump(newstate)')
+breaker('C10', 'fs-store-resolved-not-recorded', 'C10.R4', FSPY,
+        'FileStorage.store',
+        '''                    self._resolved.append(oid)
+''', '')
+breaker('C10', 'ds-vote-returns-nothing', 'C10.R4', DSPY, 'DemoStorage.tpc_vote',
+        'return self._resolved', 'return []')
+breaker('C10', 'bs-begin-keeps-resolved', 'C10.R4', BSPY,
+        'BaseStorage.tpc_begin',
+        '''            del self._resolved[:]
+''', '')
+breaker('C10', 'connection-keeps-resolved-copy', 'C10.R5', CONNPY,
+        'Connection.tpc_vote',
+        '''                if obj is not None:
+                    del obj._p_changed  # transition from changed to ghost''',
+        '''                if obj is not None:
+                    pass''')
+twin('C10', 'resolver-rename-locals', CRPY, 'tryToResolveConflict',
+     '''        old = state(self, oid, oldSerial, prfactory, oldData)
+        committed = state(self, oid, committedSerial, prfactory, committedData)
+
+        resolved = resolve(old, committed, newstate)''',
+     '''        base = state(self, oid, oldSerial, prfactory, oldData)
+        theirs = state(self, oid, committedSerial, prfactory, committedData)
+
+        resolved = resolve(base, theirs, newstate)''')
+
+# ---------------------------------------------------------------- C06
+breaker('C06', 'undo-accepts-packed', 'C06.R2', FSPY,
+        'FileStorage._txn_undo_write',
+        '''        if th.status != " ":
+            raise UndoError('non-undoable transaction')
+''', '')
+breaker('C06', 'undo-status-check-inverted', 'C06.R2', FSPY,
+        'FileStorage._txn_undo_write',
+        'if th.status != " ":', 'if th.status == "u":')
+breaker('C06', 'undo-partial-success', 'C06.R3', FSPY,
+        'FileStorage._txn_undo_write',
+        '''        if failures:
+            raise MultipleUndoErrors(list(failures.items()))
+''', '')
+breaker('C06', 'undo-creation-ignores-later-change', 'C06.R4', FSPY,
+        'FileStorage._transactionalUndoRecord',
+        '''                        if not pre:
+                            # The transaction we're undoing has no
+                            # previous state to merge with, so we
+                            # can't resolve a conflict.
+                            raise UndoError(
+                                "Can't undo an add transaction followed by"
+                                " conflicting transactions.", oid)
+''', '')
+breaker('C06', 'undo-copies-despite-difference', 'C06.R4', FSPY,
+        'FileStorage._transactionalUndoRecord',
+        '''        if copy:
+            # we can just copy our previous-record pointer forward
+            return "", pre, ipos''', '''        if copy or cdataptr:
+            # we can just copy our previous-record pointer forward
+            return "", pre, ipos''')
+breaker('C06', 'undo-resolve-failure-swallowed', 'C06.R4', FSPY,
+        'FileStorage._transactionalUndoRecord',
+        '''        except ConflictError:
+            pass
+
+        raise UndoError("Some data were modified by a later transaction", oid)''',
+        '''        except ConflictError:
+            pass
+
+        return "", pre, ipos''')
+breaker('C06', 'undo-adapter-forgets-oids', 'C06.R6', MVCCPY,
+        'UndoAdapterInstance.undo',
+        '''        if result:
+            self._undone.update(result[1])
+''', '')
+breaker('C06', 'undo-adapter-vote-result-dropped', 'C06.R6', MVCCPY,
+        'UndoAdapterInstance.tpc_vote',
+        '''        if result:
+            self._undone.update(result)''', '''        return result''')
+twin('C06', 'undo-status-eq-form', FSPY, 'FileStorage._txn_undo_write',
+     '''        if th.status != " ":
+            raise UndoError('non-undoable transaction')''',
+     '''        if th.status == " ":
+            pass
+        else:
+            raise UndoError('non-undoable transaction')''')
